@@ -126,6 +126,10 @@ def quantifier_form(fx, rep, p, slf):
     if sy.loop_order or len(res) != 1 or res[0][0].conds or res[0][0].effects:
         return False
     v = res[0][1][1]
+    if v[0] == "is" and v[2] == "Some" and v[1][0] in ("call", "mcall") and v[1][1].endswith("Iterator::next") and len(v[1][2]) == 1 \
+            and v[1][2][0][0] == "call" and v[1][2][0][1].endswith("Iterator::filter_map") and len(v[1][2][0][2]) == 2:
+        # `iter().filter_map(f).next()` is `iter().find_map(f)`
+        v = ("is", ("call", "std::iter::Iterator::find_map", v[1][2][0][2]), "Some")
     if v[0] == "is" and v[2] == "Some" and v[1][0] in ("call", "mcall") and v[1][1].endswith("Iterator::find_map") and len(v[1][2]) == 2 \
             and v[1][2][1][0] in ("closure", "fnref"):
         # `iter().find_map(f).is_some()` is `iter().any(|x| f(x).is_some())`
@@ -145,16 +149,18 @@ def quantifier_form(fx, rep, p, slf):
     if not (v[0] == "quant" and v[1] == "any"):
         return False
     rep.fn(p)
-    rep.check("C19.1", "C19.1/has_line_info/driver", v[2] == iter_term(slf), loc=F.short_file(b["sp"]), found="any() over %s" % S.tstr(v[2])[:200],
+    # `.flatten()` over the stream of Results yields exactly the Ok payloads: the element is the record itself
+    flat = v[2] == ("call", "std::iter::Iterator::flatten", (iter_term(slf),))
+    rep.check("C19.1", "C19.1/has_line_info/driver", v[2] == iter_term(slf) or flat, loc=F.short_file(b["sp"]), found="any() over %s" % S.tstr(v[2])[:200],
               expected="any() over %s (the complete record stream)" % S.tstr(iter_term(slf)))
     pred = v[3]
     x = ("bound", 0)
-    okx = mk_payload(x, "Ok", "0")
+    okx = x if flat else mk_payload(x, "Ok", "0")
     cases = pred[1] if pred[0] == "cases" else (((), (), pred),)
     paths = [(_P(c[0], c[1]), (S.VAL, c[2])) for c in cases]
 
     def ref(o):
-        if o(("is", x, "Ok")) and o(("is", okx, "Method")) and o(("is", mk_payload(okx, "Method", "line_mapping"), "Some")):
+        if (flat or o(("is", x, "Ok"))) and o(("is", okx, "Method")) and o(("is", mk_payload(okx, "Method", "line_mapping"), "Some")):
             return TRUE
         return FALSE
     bad, n = fc.compare_paths(paths, ref, lambda st, out: out[1])
@@ -571,7 +577,22 @@ def run(ctx, rep):
                 rep.undecidable("C19.3", "C19.3/is_valid/flag", loc=F.short_file(b["sp"]), construct="state variables assigned in the loop: %s" % sorted(flags))
             else:
                 flag = list(flags)[0]
-                seen = ("bool", ("loop", flag, idx))
+                lv = ("loop", flag, idx)
+                # the state may be a bool or a private two-valued enum: F1 = the value it takes on a class record
+                news = {e[2] for st, o in L["paths"] for e in st.effects if e[0] == "assign" and e[1] == ("place", flag, ()) and e[2] != lv}
+                F1 = list(news)[0] if len(news) == 1 else TRUE
+                if F1[0] == "adt" and not F1[3]:
+                    seen = ("is", lv, F1[2])
+                else:
+                    F1 = TRUE
+                    seen = ("bool", lv)
+                # re-assigning the unchanged state is no state change
+                L = dict(L)
+                L["paths"] = []
+                for st, o in sy.loops[sy.loop_order[0]]["paths"]:
+                    st2 = st.copy()
+                    st2.effects = tuple(e for e in st.effects if not (e[0] == "assign" and e[1] == ("place", flag, ()) and e[2] == lv))
+                    L["paths"].append((st2, o))
 
                 def ref(o):
                     if not o(("is", R.NEXT, "Some")):
@@ -579,7 +600,7 @@ def run(ctx, rep):
                     if not o(("is", REC, "Ok")):
                         return ("cont", ())
                     if o(("is", OKR, "Class")):
-                        return ("cont", (("assign", flag, TRUE),))
+                        return ("cont", (("assign", flag, F1),))
                     if (o(("is", OKR, "Field")) or o(("is", OKR, "Method"))) and o(seen):
                         return ("ret", TRUE, ())
                     return ("cont", ())
@@ -595,7 +616,11 @@ def run(ctx, rep):
                         for s_ in n["stmts"]:
                             if s_["k"] == "Let" and s_["pat"]["k"] == "Bind" and s_["pat"]["name"] == flag and s_.get("init"):
                                 init = F.pp(s_["init"])
-                rep.check("C19.3", "C19.3/is_valid/flag-init", init == "False", loc=F.short_file(b["sp"]), found="flag initial value %s" % init, expected="false", nontrivial=False)
+                init_ok = init == "False" if F1 == TRUE else (init is not None and init != F.pp({"k": "Lit", "lit": {"t": "bool", "v": True}}) and
+                                                               (F1[2] not in init) and init.split("::")[0] in (F1[1], F1[1] + "{}") or
+                                                               (init is not None and F1[1] in init and F1[2] not in init))
+                rep.check("C19.3", "C19.3/is_valid/flag-init", bool(init_ok), loc=F.short_file(b["sp"]), found="flag initial value %s" % init,
+                          expected="false (the state that is not the one set on a class record)", nontrivial=False)
     import api_rules as AR
     ng = AR.check_getters(fx, rep, "C19.api", "mapping::MappingSummary")
     AR.check_mapping_wiring(fx, rep, "C19.api")
